@@ -60,7 +60,11 @@ static void drv_header(jb_t *b)
 static void drv_reset(void)
 {
     int i;
+#ifdef USE_INITIALIZER
+    for (i = 1; i <= NL; i++) { struct cstl_slist x = CSTL_SLIST_INITIALIZER(L[i], struct el, n); L[i] = x; }
+#else
     for (i = 1; i <= NL; i++) cstl_slist_init(&L[i], offsetof(struct el, n));
+#endif
     for (i = 0; i <= N; i++) memset(&pool[i].n, 0, sizeof pool[i].n);
 }
 static void drv_aborted(void) { }
